@@ -18,10 +18,12 @@ import (
 	"fmt"
 	"io"
 	"mime/multipart"
+	"os"
 	"strings"
 
 	"golang.org/x/perf/storage/db"
 	"golang.org/x/perf/storage/fs"
+	"golang.org/x/perf/storage/fs/local"
 )
 
 // ---------------------------------------------------------------- request body
@@ -554,4 +556,99 @@ func h20CountLabelsNot(st *db.H20Store, upload string) int {
 		}
 	}
 	return n
+}
+
+// ---------------------------------------------------------------- the local file store
+
+// h20Rec records which files were created through a store and how each writer ended.
+type h20Rec struct {
+	inner fs.FS
+	names []string
+	ok    []bool // Close returned nil
+}
+
+type h20RecWriter struct {
+	fs.Writer
+	r *h20Rec
+	k int
+}
+
+func (r *h20Rec) NewWriter(ctx context.Context, name string, meta map[string]string) (fs.Writer, error) {
+	w, err := r.inner.NewWriter(ctx, name, meta)
+	if err != nil {
+		return nil, err
+	}
+	r.names = append(r.names, name)
+	r.ok = append(r.ok, false)
+	return &h20RecWriter{w, r, len(r.names) - 1}, nil
+}
+
+func (w *h20RecWriter) Close() error {
+	err := w.Writer.Close()
+	if err == nil {
+		w.r.ok[w.k] = true
+	}
+	return err
+}
+
+func h20OnDisk(path string) ([]byte, bool) {
+	f, err := os.Open(path)
+	if err != nil {
+		return nil, false
+	}
+	defer f.Close()
+	var buf bytes.Buffer
+	buf.ReadFrom(f)
+	return buf.Bytes(), true
+}
+
+// H20Local: the same handler over the local-disk store (storage/fs/local) rooted in a
+// directory other than the working directory: a file whose writing failed is gone from the
+// disk, a stored file holds the metadata header and the uploaded bytes. Files live in the
+// engine's in-memory file registry (os.Create/Write/Remove/Open), natively in a temporary
+// directory.
+func H20Local() {
+	shape := vndParam("shape")
+	kind := vndParam("fault") // 0 none, 1 database, 5 body breaks in content
+	vndFile("cwd-marker", []byte("x")) // natively: makes a temporary directory the working directory
+	st := db.H20Reset()
+	db.H20SetDay(0)
+	d := db.H20Open()
+	rec := &h20Rec{inner: local.NewFS("store")}
+	app := &App{DB: d, FS: rec}
+	parts, reject := h20Shape(shape)
+	body := &h20BodyT{parts: parts, cutPart: -1}
+	switch kind {
+	case 1:
+		st.FailAt = vndInt("failAt", 1, 14)
+	case 5:
+		body.cutPart = vndInt("cutPart", 0, len(parts)-1)
+		body.cutAt = vndInt("cutAt", 0, len(parts[vndConcretize(body.cutPart)].content))
+	}
+	stt, err := app.processUpload(context.Background(), "user", h20Reader(body))
+	vndReach("h20:local")
+	fired := st.Failed || body.cutHit
+	if err != nil || fired || reject {
+		vndAssert(err != nil, "failed_step_is_reported")
+		if n := len(rec.names); n > 0 && !rec.ok[n-1] {
+			vndReach("h20:local-removed")
+			_, present := h20OnDisk("store/" + rec.names[n-1])
+			vndAssert(!present, "file_being_written_at_the_failure_is_removed")
+		}
+		return
+	}
+	vndAssert(stt != nil, "success_reports_a_fresh_upload_id")
+	fi := 0
+	for _, p := range parts {
+		if p.form != "file" {
+			continue
+		}
+		vndAssert(fi < len(rec.names) && rec.ok[fi], "each_file_is_stored")
+		if fi < len(rec.names) {
+			got, present := h20OnDisk("store/" + rec.names[fi])
+			vndAssert(present && bytes.HasSuffix(got, append([]byte("\n\n"), p.content...)), "stored_file_ends_with_the_uploaded_bytes")
+		}
+		fi++
+	}
+	vndAssert(fi == len(rec.names), "each_file_is_stored_once")
 }
